@@ -134,6 +134,11 @@ func c07DoneIsError(c *Ctx) {
 			if s.pred != nil {
 				st.Trail = append(st.Trail, fmt.Sprintf("%s:%d", fn.Name(), s.pred.Index))
 			}
+			if s.pred != nil {
+				st.assumeDominating(s.pred)
+			} else {
+				st.assumeDominating(s.block)
+			}
 			ExploreInside(s.block, s.idx, s.pred, st, h)
 			c.paths += h.Paths
 			switch {
